@@ -25,7 +25,7 @@ RULE = (
     "length vector); L1 enumerates the whole space (<=3 fields x lengths 0..3; thorough adds 4 "
     "fields x lengths 0..3) against State.prepare_states, L2 runs Hypothesis-sampled cases end to "
     "end through Task.split()(...) with an execution log (lists may hold one None/0/\"\"/False/[]/0.0 "
-    "element; flat outer products are also spelled keyword-only). Non-trivial = >=2 split fields and (a "
+    "element or a repeated element; flat outer products are also spelled keyword-only). Non-trivial = >=2 split fields and (a "
     "nested node or an inner node); distinct = (level, canonical tree, length vector)."
 )
 ASSUMPTIONS = [
@@ -87,7 +87,10 @@ def field_values(f, n, odd):
     out = vals(f, n)
     if odd and f in odd and n:
         i, kind = odd[f]
-        out[i % n] = ODD[kind]
+        if kind == "dup":  # a repeated element: two jobs with identical inputs
+            out[i % n] = out[(i + 1) % n]
+        else:
+            out[i % n] = ODD[kind]
     return out
 
 
@@ -124,7 +127,10 @@ def check_l2(tree, lens, odd=None, implicit=False):
             if repr(got) != repr(exp):
                 sig = "l2-order" if sorted(map(repr, got)) == sorted(map(repr, exp)) else "l2-outputs"
                 return [dict(signature=sig + tag, observed=repr(got[:12]), expected=repr(exp[:12]))]
-            if sorted(map(repr, ran)) != sorted(map(repr, exp)):
+            has_dup = bool(odd) and any(k == "dup" for _, k in odd.values())
+            same_runs = (set(map(repr, ran)) == set(map(repr, exp))) if has_dup else (
+                sorted(map(repr, ran)) == sorted(map(repr, exp)))  # identical jobs may run once
+            if not same_runs:
                 return [dict(signature="l2-executions", observed=ran[:12], expected=exp[:12],
                              detail="set of executed job inputs differs from the expansion")]
         elif kind == "reject":
@@ -184,7 +190,7 @@ def l2_case(draw):
         odd = {}
         for f in fields:
             if draw(st.booleans()):
-                odd[f] = [draw(st.integers(0, 2)), draw(st.sampled_from(sorted(ODD)))]
+                odd[f] = [draw(st.integers(0, 2)), draw(st.sampled_from(sorted(ODD) + ["dup", "dup"]))]
         if odd:
             case["odd"] = odd
     flat = R.is_leaf(tree) or (tree[0] == "O" and all(R.is_leaf(k) for k in tree[1]))
